@@ -215,3 +215,12 @@ Definition wf_desc (d : QoSFlowDesc) : bool :=
 
 Definition wf_descs_code (q : list QoSFlowDesc) : bool := forallb wf_desc_code q.
 Definition wf_descs (q : list QoSFlowDesc) : bool := forallb wf_desc q.
+
+(* what [ts_rule_ok] leaves open: the Go representation of the values *)
+Definition go_filter_ok (op : N) (pf : PacketFilter) : bool :=
+  if op =? 5 then (pf_Direction pf =? 0) && match pf_Components pf with [] => true | _ => false end
+  else forallb wf_comp (pf_Components pf) && Nat.leb (comps_size (pf_Components pf)) 255.
+Definition go_rule_ok (r : QoSRule) : bool :=
+  (Identifier r <? 256) && (Precedence r <? 256) &&
+  forallb (fun pf => pf_Identifier pf <? 16) (PacketFilterList r) &&
+  forallb (go_filter_ok (Operation r)) (PacketFilterList r).
